@@ -60,10 +60,13 @@ CLAIMED['C20'] = dict(
     text='Lean 4 theorems over a file-system state machine of save_content_to_path/_save_content: for every file system, path, content and every fault point (open, '
          'serialise, write with any partial text, close) a failed save leaves the target with its original content, no stray .bak and no other path touched; a successful '
          'save writes the serialised content and keeps the backup exactly when asked. Correspondence: the real CLI (click CliRunner, scratch directory) with faults injected '
-         'in-process vs the compiled model; the end-to-end clause (diff --create-patch, patch => A loads equal to B, A.bak) is evaluated on the real CLI over generated documents.',
+         'in-process vs the compiled model. The end-to-end clause (diff --create-patch, then patch => A loads equal to B, A.bak iff asked, A restored on any fault) is the composition '
+         'theorem C20_patch_reproduces_at over a model of the two commands (Model/Cli/Patch.lean): for every codec that reads back what it writes (JSON text, persisted delta = C14), every '
+         'fault point and every pair of documents on which the round trip of C01 holds; instantiated where C01 is a theorem (nested JSON objects of any depth; lists with recorded opcodes) '
+         'and evaluated on the real CLI over generated documents elsewhere.',
     design='5/C20',
-    note='Trusted: Lean kernel; POSIX rename/remove; OS-level partial writes; the restoring rename not failing. The compose theorem (C01 . C14 . JSON) is not yet stated in Lean: '
-         'that clause is observed, not proved.',
+    note='Trusted: Lean kernel; POSIX rename/remove; OS-level partial writes; the restoring rename not failing. The text layers of the composition theorem (JSON reading / writing, '
+         'pickle persistence of the delta) are parameters assumed to read back what they write; outside the domains where C01 is a theorem the end-to-end clause is observed, not proved.',
     technique='Lean 4 proof (case analysis over fault points of a state machine) + differential correspondence with in-process fault injection')
 CLAIMED['C06'] = dict(
     text='Lean 4 theorems over a pure model of DeepHash._hash (every hasher, every value size/nesting): the hash of a dict does not depend on insertion order in any mode; '
